@@ -18,7 +18,11 @@ THEOREMS = [
 TRUSTED = ["the feature models of C10 (functions of parent relation + distances only), C12's generated matrices (isometry), C13's generated volume forms (homogeneous of degree 3)"]
 ASSUMPTIONS = ["floating-point rounding is outside the theorems (the property itself says 'beyond floating-point rounding'): metamorphic comparisons use relative tolerance 2e-4",
                "Sholl radii are chosen at least 1e-2 (relative) away from every node radius so that rounding cannot flip a count",
-               "volume: the analytic accuracy level 3 (no Monte Carlo term)"]
+               "volume: the analytic accuracy level 3 (no Monte Carlo term)",
+               "volume under scaling: compared only while every non-zero radius step along an edge is >= 1e-5 length units before and after (the code's "
+               "absolute 1e-6 'no taper' band of the sphere/frustum overlap, DESIGN §8, is not scale free: inside it the unchanged library is 0.3-0.5 % off s^3)",
+               "far translations and power-of-two scale factors are exact in float32; decimal unit changes (1e-9 .. 1e9) round every coordinate by 6e-8 relative, "
+               "which stays below the tolerance because the shortest compartment is >= 1/512 of the neuron's extent"]
 
 
 def features(t, sholl_rs):
@@ -61,6 +65,72 @@ def relabel(rng, t):
         k = perm[old]
         new["pids"][k] = -1 if t["pids"][old] == -1 else perm[t["pids"][old]]
         new["types"][k] = t["types"][old]; new["xyz"][k] = list(t["xyz"][old]); new["r"][k] = t["r"][old]
+    return new
+
+
+# Unit changes: the property quantifies over ALL positive scale factors, and the scale factors met in practice are not 0.5 or 3 but
+# conversions between units (nm / um / mm / m: powers of 1000) and voxel sizes (powers of two are exact in float32, so nothing but the
+# exponent of any coordinate changes).  Nine decades either way keeps every squared length and every r^3 far inside the float32 range.
+UNIT_SCALES = [1e-9, 2.0 ** 20, 1e-6, 1e3, 2.0 ** -30, 1e6, 1e-3, 2.0 ** -20, 1e9, 2.0 ** 30, 2.0 ** -10, 2.0 ** 10]
+# Offsets of whole-brain / atlas coordinates (thousands to ~1e5 length units); every one is a multiple of 4096, so a neuron on the 1/64
+# grid is moved exactly in float32 (checked again in `run`)
+FAR_SHIFTS = [4096.0, 12288.0, 20480.0, 32768.0, 40960.0, 49152.0, 65536.0, 98304.0]
+
+
+def _small(rng):
+    """a short non-zero offset on the 1/64 grid: every component is 0 or between 1/64 and 1/4"""
+    while True:
+        d = [rng.choice([0, 0, 1, 2, 4, 8, 16]) * rng.choice([-1, 1]) / 64.0 for _ in range(3)]
+        if any(d):
+            return d
+
+
+def spiny(rng, t):
+    """The same kind of neuron with the short compartments real reconstructions have, on the 1/64 grid:
+      * spine-like terminal twigs of two short compartments with a kink between them (a branch / path end that is short AND not straight),
+        attached to inner nodes (so that the twig is a branch of its own and its origin becomes a furcation);
+      * daughters of bifurcations whose FIRST compartment is short while the daughter then goes on in another direction.
+    All positions stay pairwise distinct (no zero-length compartment)."""
+    n = t["n"]
+    new = {"n": n, "pids": list(t["pids"]), "types": list(t["types"]), "xyz": [[round(c * 64) / 64.0 for c in p] for p in t["xyz"]], "r": list(t["r"])}
+    used = set()
+    for i, p in enumerate(new["xyz"]):
+        while tuple(p) in used:
+            p[i % 3] += 1 / 64.0
+        used.add(tuple(p))
+
+    def kids(v):
+        return [i for i in range(new["n"]) if new["pids"][i] == v]
+
+    # short first compartment of a daughter that continues (has exactly one child) below a bifurcation
+    for v in range(n):
+        ch = kids(v)
+        if len(ch) != 2:
+            continue
+        for c in ch:
+            if len(kids(c)) == 1 and rng.random() < 0.7:
+                d = _small(rng)
+                q = [new["xyz"][v][k] + d[k] for k in range(3)]
+                if tuple(q) not in used:
+                    used.add(tuple(q)); new["xyz"][c] = q
+                break
+    # kinked terminal twigs; pass-through nodes first (they become bifurcations), never on a tip (that would only lengthen its branch)
+    inner = [v for v in range(n) if kids(v)]
+    inner.sort(key=lambda v: (len(kids(v)) != 1 or v == 0, rng.random()))
+    for v in inner[: max(1, min(3, n // 4))]:
+        for _try in range(20):
+            d1, d2 = _small(rng), _small(rng)
+            cr = [d1[1] * d2[2] - d1[2] * d2[1], d1[2] * d2[0] - d1[0] * d2[2], d1[0] * d2[1] - d1[1] * d2[0]]
+            a = [new["xyz"][v][k] + d1[k] for k in range(3)]
+            b = [a[k] + d2[k] for k in range(3)]
+            if any(cr) and tuple(a) not in used and tuple(b) not in used:
+                break
+        else:
+            continue
+        used.add(tuple(a)); used.add(tuple(b))
+        m = new["n"]
+        new["pids"] += [v, m]; new["types"] += [3, 3]; new["xyz"] += [a, b]; new["r"] += [rng.choice([1 / 16, 1 / 8]), 1 / 16]
+        new["n"] = m + 2
     return new
 
 
@@ -108,6 +178,27 @@ class Metamorphic(Suite):
                             tf["xyz"][i] = q
                 out.append({"class": f"far/{shape}", "tree": tf, "kind": "far",
                             "shift": [rng.choice([8192.0, -12288.0, 4096.0, 10240.0]) for _ in range(3)]})
+                # a change of unit: the same neuron under a scale factor many orders of magnitude away from 1 (every listed factor is used)
+                out.append({"class": f"unit/{shape}", "tree": t, "kind": "scale", "s": UNIT_SCALES[len(out) % len(UNIT_SCALES)]})
+        # neurons with short kinked twigs and short first compartments below bifurcations (see `spiny`), under each kind of change;
+        # here the scale factors are unit changes and the translations reach atlas-sized offsets
+        k = 0
+        for n in [5, 8, 13, 21] + ([50] if big else []):
+            for _ in range(3 if not big else 8):
+                shape = ["caterpillar", "binary", "stem", "random", "chain"][k % 5]; k += 1
+                t = gen.tree_case(rng, n, shape, numbering=rng.choice(["sorted", "root0"]), coords="dyadic", types="soma3")
+                t["xyz"] = [[c / 64.0 for c in p] for p in t["xyz"]]
+                t["r"] = [max(0.125, v / 16.0) for v in t["r"]]
+                t = spiny(rng, t)
+                ax = [rng.gauss(0, 1) for _ in range(3)]; nrm = math.sqrt(sum(a * a for a in ax)) or 1.0
+                out.append({"class": f"rigid/spiny/{shape}", "tree": t, "kind": "rigid", "axis": [a / nrm for a in ax], "theta": rng.uniform(-3.1, 3.1),
+                            "shift": [rng.randint(-80, 80) / 4 for _ in range(3)], "center": rng.choice(["root", "origin"])})
+                out.append({"class": f"relabel/spiny/{shape}", "tree": t, "kind": "relabel", "perm_seed": rng.randrange(10**6)})
+                out.append({"class": f"unit/spiny/{shape}", "tree": t, "kind": "scale", "s": UNIT_SCALES[k % len(UNIT_SCALES)]})
+                out.append({"class": f"unit/spiny/{shape}", "tree": t, "kind": "scale", "s": 10.0 ** rng.uniform(-9, 9)})
+                for _far in range(2):
+                    out.append({"class": f"far/spiny/{shape}", "tree": t, "kind": "far",
+                                "shift": [rng.choice([-1, 1]) * rng.choice(FAR_SHIFTS) for _ in range(3)]})
         # bifurcations whose two daughters leave in exactly opposite directions (180°) or whose daughter continues the parent segment
         # exactly: the angles sit on the boundary of arccos, in every pose
         for rep in range(14 if not big else 40):
@@ -194,15 +285,26 @@ class Metamorphic(Suite):
         def close(x, y, scale=1.0):
             if isinstance(x, list):
                 return len(x) == len(y) and all(close(u, v, scale) for u, v in zip(x, y))
-            return abs(y - x * scale) <= tol * max(1.0, abs(x * scale))
+            # relative at every scale: the absolute floor (1 length unit of the ORIGINAL neuron) is carried along by the scale factor
+            return abs(y - x * scale) <= tol * max(scale, abs(x * scale))
 
         kind = case["kind"]
+        # The library's closed-form sphere/frustum overlap treats a radius step of less than 1e-6 LENGTH UNITS as "no taper" (an absolute band,
+        # DESIGN.md §8 and theorem C11.concentric_scale_counterexample), so the reported volume of a neuron shrunk until its radius steps fall
+        # into that band is only approximate (seen: 0.3-0.5 % off s^3 for s <= 2e-6 on neurons with short compartments).  As in C13 / C14 the
+        # band is excluded in absolute terms, with a factor 10 to spare: the volume clause of a scaling is evaluated iff every non-zero radius
+        # step along an edge stays >= 1e-5 in the original and in the scaled neuron.  Every other clause is evaluated at every scale.
+        tr = case["tree"]
+        steps = [abs(tr["r"][i] - tr["r"][p]) for i, p in enumerate(tr["pids"]) if p >= 0 and tr["r"][i] != tr["r"][p]]
+        volume_band = kind == "scale" and bool(steps) and min(steps) * min(1.0, s) < 1e-5
         for key, power in (("length", 1), ("branch_length", 1), ("path_length", 1), ("radial", 1), ("volume", 3),
                            ("branch_tortuosity", 0), ("path_tortuosity", 0), ("angles", 0), ("partition_asymmetry", 0)):
             if key == "angles" and not close(a[key], b[key]):
                 # angles are in degrees; allow 0.05°
                 if len(a[key]) == len(b[key]) and all(abs(u - v) <= 0.05 for u, v in zip(a[key], b[key])):
                     continue
+            if key == "volume" and volume_band:
+                continue
             if not close(a[key], b[key], s ** power):
                 what = {"rigid": "rotating/translating the neuron", "relabel": "renumbering the nodes", "scale": f"scaling by {s}",
                         "far": f"translating the neuron by {case.get('shift')} (exactly representable)"}[kind]
